@@ -236,7 +236,8 @@ class Arith:
                 raise Unsupported("truthiness of object with __len__/__bool__")
             return z3.BoolVal(True)
         if isinstance(v, SDict):
-            raise Unsupported("truthiness of SDict")
+            live = [c for c, _, _ in self.sdict_entries(v)]
+            return z3.simplify(z3.Or(*live)) if live else z3.BoolVal(False)
         return z3.BoolVal(bool(v))
 
     def pybool(self, c):
